@@ -19,6 +19,8 @@ Oracle (from the property text, not from the code):
     through torch's single-process "fake" process group; every such case asks the library without a group, creates the
     group, asks again, destroys it and asks again, so a stale answer in either direction is observable; while the group
     exists LOCAL_RANK / RANK / WORLD_SIZE are set to values that contradict it - the group decides);
+  * partially explicit arguments (only rank given / only world size given): the given one is honoured, the omitted one
+    is the process group's (or rank 0 / world size 1 without a group) - len and stream equal the fully explicit sampler;
   * cross-process: the streams of (configuration, seed, epoch, rank) computed in a fresh interpreter with another
     PYTHONHASHSEED equal the ones computed in this process (ranks live in different processes; a run is restarted).
 """
@@ -66,10 +68,12 @@ ASSUMPTIONS = [
     "times out makes the run inconclusive",
     "while a process group is initialised, LOCAL_RANK / RANK / WORLD_SIZE / LOCAL_WORLD_SIZE that contradict it are ignored in "
     "favour of the group (not driven: environment variables without an initialised group)",
+    "partially explicit arguments are driven only for valid combinations (rank < world size); DistributedSampler (torch) refuses "
+    "an omitted rank / num_replicas without a process group, so it is driven with partial arguments only under the group",
     "the ambient-process-group cases need torch.testing._internal.distributed.fake_pg (single process, no network); if it "
     "is unavailable the run is inconclusive, not held",
 ]
-MONITORS = ["rank_streams_observed", "cross_process_streams_compared", "group_env_contradiction_checked", "repeat_runs_with_replacement_checked", "group_lifecycle_checked", "split_checked", "reproduction_checked", "epoch_difference_checked",
+MONITORS = ["rank_streams_observed", "partial_arguments_checked", "cross_process_streams_compared", "group_env_contradiction_checked", "repeat_runs_with_replacement_checked", "group_lifecycle_checked", "split_checked", "reproduction_checked", "epoch_difference_checked",
             "repeat_runs_checked", "pad_wraparound_checked", "tail_cut_checked", "step_budget_runs", "ambient_pg_checked"]
 
 P_MAX = 1e-15  # per-comparison bound for the statistical clause "another epoch gives another draw"
@@ -268,24 +272,25 @@ def _dataset(spec, sub):
     return Leaf(n)
 
 
-def _make(spec, sub, ds, rank, W, defaults=False):
-    """the real sampler for one rank. `defaults` = leave rank / world size to the library (process group)"""
+def _make(spec, sub, ds, rank, W, defaults=False, omit=()):
+    """the real sampler for one rank. `defaults` = leave rank / world size to the library (process group);
+    `omit` = names of the arguments ("rank" / "world") left to the library while the other one is given"""
+    omit = ("rank", "world") if defaults else tuple(omit)
+    rw = {}
+    if "rank" not in omit:
+        rw["rank"] = rank
+    if "world" not in omit:
+        rw["num_replicas" if sub == "distributed" else "world_size"] = W
     if sub == "distributed":
         kw = dict(shuffle=spec["shuffle"], seed=spec["seed"], drop_last=spec["drop_last"], num_repeats=spec["R"])
-        if not defaults:
-            kw.update(num_replicas=W, rank=rank)
-        return DistributedSampler(ds, **kw)
+        return DistributedSampler(ds, **kw, **rw)
     if sub == "classbalanced":
         kw = dict(shuffle=spec["shuffle"], samples_per_class=spec["spc"], seed=spec["seed"])
-        if not defaults:
-            kw.update(rank=rank, world_size=W)
-        return ClassBalancedSampler(ds, **kw)
+        return ClassBalancedSampler(ds, **kw, **rw)
     if sub == "weighted":
         w = torch.tensor(spec["weights"], dtype=getattr(torch, spec["dtype"]))
         kw = dict(size=spec["size"], seed=spec["seed"])
-        if not defaults:
-            kw.update(rank=rank, world_size=W)
-        return WeightedSampler(ds, w, **kw)
+        return WeightedSampler(ds, w, **kw, **rw)
     raise ValueError(sub)
 
 
@@ -551,6 +556,8 @@ def run_case(run, spec):
                     _check_runs(run, kind, d, spec["n"], spec["R"], f"{what} epoch={e}")
             _epoch_clause(run, spec, kind, D, what)
             _drive_ranks(run, spec, kind, D, what, eff, rng)
+            if spec["order"] % 2 == 0:
+                _partial(run, spec, kind, _dataset(spec, kind), spec["epochs"][0], what, eff, None, "")
             if len(run.samples) < 6 and spec["W"] > 1 and spec["n"] > 3:
                 e = spec["epochs"][0]
                 run.sample({"sampler": kind, "n": spec["n"], "W": spec["W"], "epoch": e, "R": spec.get("R"), "drop_last": spec.get("drop_last"),
@@ -638,6 +645,41 @@ def _lifecycle_no_group(run, spec, sub, ds, e0, D, what, eff, phase):
             run.violation(f"{sub}:defaults-{key}", f"{what}: no process group is initialised ({phase} the group's lifetime) but the sampler built "
                                                    f"without rank/world size yields len={ln} {_s(L)}, rank 0 of 1 yields len={len(D[e0])} {_s(D[e0])}")
             return False
+    return _partial(run, spec, sub, ds, e0, what, eff, None, f" [{phase} group]")
+
+
+def _partial(run, spec, sub, ds, e, what, eff, group, tag):
+    """partially explicit arguments: the given one is honoured, the omitted one comes from the default process group
+    (group = (rank, world size)) or, without a group, is rank 0 / world size 1. Reference = the fully explicit construction.
+    Only valid combinations (rank < world size) are driven; torch's DistributedSampler needs a group for any omitted one."""
+    if group is None and sub == "distributed":
+        return True
+    p0, W0 = group if group is not None else (0, 1)
+    W = spec["W"]
+    combos = []
+    if p0 < W:
+        combos.append(("world-given", ("rank",), p0, W))                     # world size given, rank omitted
+    ranks = sorted({0, spec["order"] % W0, W0 - 1})
+    for r in ranks:
+        combos.append(("rank-given", ("world",), r, W0))                     # rank given, world size omitted
+    state = f"process group rank {p0} of {W0}" if group is not None else "no process group"
+    for name, omit, r, w in combos:
+        given = f"world size={w}, rank omitted" if name == "world-given" else f"rank={r}, world size omitted"
+        sp = dict(spec, W=w)
+        ref = _construct(run, sp, sub, lambda: _make(sp, sub, ds, r, w), f"{what} explicit ({r},{w}) ctor")
+        _set_epoch(run, sub, ref, e, what)
+        want = _stream(run, sp, sub, ref, f"{what} explicit rank {r} of {w}{tag}", eff)
+        s = _construct(run, sp, sub, lambda: _make(sp, sub, ds, r, w, omit=omit), f"{what} ({given}) ctor{tag}")
+        _set_epoch(run, sub, s, e, what)
+        got = _stream(run, sp, sub, s, f"{what} ({given}){tag}", eff)
+        run.count("partial_arguments_checked")
+        run.count("rank_streams_observed")
+        run.cover("partial", sub, name, group is not None, r == 0, w == 1)
+        if got != want:
+            run.violation(f"{sub}:partial-explicit:{name}",
+                          f"{what}{tag}: sampler built with {given} ({state}) yields len={got[0]} {_s(got[1])}; the fully explicit "
+                          f"(rank={r}, world size={w}) construction yields len={want[0]} {_s(want[1])}")
+            return False
     return True
 
 
@@ -695,6 +737,9 @@ def _run_ambient(run, spec):
         if (got_len, got) != (want_len, want):
             run.violation(f"{sub}:defaults-not-from-process-group",
                           f"{what}: sampler built without rank/world size yields len={got_len} {_s(got)}, the explicit (rank={pgr}, world={pgW}) sampler yields len={want_len} {_s(want)}")
+            return
+        # (a') partially explicit arguments: the omitted one comes from the group, the given one is honoured
+        if not _partial(run, spec, sub, ds, e0, what, eff, (pgr, pgW), " [pg]"):
             return
         # (b) explicit ranks are honoured: all ranks of W built in this one process yield what they yield without a group
         for r in range(W):
